@@ -105,7 +105,60 @@ def elem_ident(E, v):
 CONTAINER_RE = re.compile(r"(?:^|::)((BTreeMap|BTreeSet|Vec|HashMap|HashSet|LinkedHashMap|LinkedHashSet|VecDeque)::<.*>|String|str)::(len|is_empty)$", re.S)
 
 
+LAZY_CONT_RE = re.compile(r"^(?:std::(?:vec|collections)::|alloc::vec::|linked_hash_map::|hashlink::(?:linked_hash_map::)?|std::collections::(?:btree_map|btree_set|hash_map|hash_set)::)?(Vec|BTreeMap|LinkedHashMap|HashMap|BTreeSet|HashSet)<(.*)>$", re.S)
+
+
+def unfold_lazy_container(E, a):
+    """opt-in (E.lazy_collection_sizes = (0, 1, 2)): a lazily initialised std container reached through `a` becomes an abstract
+    sequence of n lazily initialised elements, n one of the listed sizes (a fork); map keys / set elements are pairwise
+    distinct identities.  Returns True when something was unfolded."""
+    sizes = getattr(E, "lazy_collection_sizes", None)
+    if not sizes:
+        return False
+    from engine import VLazy
+    from mirparse import split_top
+    r = a
+    while isinstance(r, VRef) and isinstance(E.read_ref(r), VRef):
+        r = E.read_ref(r)
+    d = E.read_ref(r) if isinstance(r, VRef) else r
+    if not isinstance(d, VLazy) or getattr(d, "fields", None):
+        return False
+    m = LAZY_CONT_RE.match(d.ty.strip())
+    if not m:
+        return False
+    fam, inner = m.group(1), split_top(m.group(2))
+    n_t = z3.Int(d.path + "#len")
+    k = E.choose([n_t == n for n in sizes], "size of " + d.path)
+    n = sizes[k]
+    items = []
+    def mat(t, path):
+        mp = re.match(r"^(?:std::rc::|alloc::rc::|std::sync::|std::boxed::)?(Rc|Arc|Box)<(.*)>$", t.strip(), re.S)
+        if mp:                      # smart pointers are transparent wrappers around a lazily initialised pointee
+            return VStruct(mp.group(1), [mat(mp.group(2), path + ".ptr")])
+        return E.materialize(t, path)
+    for i in range(n):
+        if fam in ("BTreeMap", "LinkedHashMap", "HashMap"):
+            items.append(VStruct("()", [mat(inner[0], "%s[%d].k" % (d.path, i)), mat(inner[1], "%s[%d].v" % (d.path, i))]))
+        else:
+            items.append(mat(inner[0], "%s[%d]" % (d.path, i)))
+    kind = {"Vec": "vec", "BTreeMap": "map", "LinkedHashMap": "map", "HashMap": "hmap", "BTreeSet": "set", "HashSet": "set"}[fam]
+    if (fam != "Vec" or getattr(E, "lazy_vec_distinct", False)) and n > 1:      # lazy_vec_distinct: the vector of a set-typed collection (representation invariant, C16)
+        ids = [elem_ident(E, it.fields[0] if kind in ("map", "hmap") else it) for it in items]
+        for x in range(n):
+            for y in range(x):
+                try:
+                    E.pc.append(ids[x] != ids[y])
+                except Exception:
+                    pass
+    seq = VSeq(items, kind)
+    if isinstance(r, VRef):
+        E.replace_at(r.cell, r.path, seq)
+    return True
+
+
 def dispatch(E, c, tc, args):
+    if args and getattr(E, "lazy_collection_sizes", None):
+        unfold_lazy_container(E, args[0])
     # ---------------- size of an abstract (lazy / opaque) container: an uninterpreted function of its identity
     m = CONTAINER_RE.search(c)
     if m and args:
@@ -302,6 +355,26 @@ def dispatch(E, c, tc, args):
                     keep.append(x)
             d.items[:] = keep
             return UNIT
+    if re.search(r"<impl \[(?:u8|u16|u32|u64|usize)\]>::binary_search$", c) and len(args) == 2:
+        # std's contract: on a slice sorted ascending, Ok(position of a match) or Err(insertion point); on an unsorted slice the
+        # result is unspecified — modelled as ANY answer the algorithm could give: a position that really holds the value, or a miss
+        d = deref(E, args[0])
+        x = deref(E, args[1])
+        if isinstance(d, VSeq) and isinstance(x, VInt) and all(isinstance(deref(E, it), VInt) for it in d.items):
+            vals = [deref(E, it).t for it in d.items]
+            n = len(vals)
+            srt = z3.And([vals[i] <= vals[i + 1] for i in range(n - 1)]) if n > 1 else z3.BoolVal(True)
+            is_sorted = E.choose([srt, z3.Not(srt)], "slice sorted") == 0
+            alts = [("ok", i, vals[i] == x.t) for i in range(n)]
+            if is_sorted:
+                alts += [("err", j, z3.And([v < x.t for v in vals[:j]] + [v > x.t for v in vals[j:]])) for j in range(n + 1)]
+            else:
+                pick = E.fresh("unsorted_binary_search_miss", "bool")
+                alts += [("err", n, z3.And(pick, z3.BoolVal(True)))]
+                alts = [(k_, i, z3.And(cnd, z3.Not(pick))) if k_ == "ok" else (k_, i, cnd) for k_, i, cnd in alts]
+            k = E.choose([a[2] for a in alts], "binary_search outcome")
+            kind, i, _ = alts[k]
+            return VEnum("Result", "Ok" if kind == "ok" else "Err", [VInt(z3.IntVal(i), "usize")])
     if re.match(r"^std::vec::Vec::<.*>::swap_remove$", c, re.S) and len(args) == 2:
         r = ref_chain(E, args[0])
         d = E.read_ref(r)
